@@ -307,7 +307,7 @@ func (e *env) crossTypeSearch(shard, nshards int, deadline time.Time, want strin
 		r.Cap(fmt.Sprintf("cross-type collision search: more key collision groups than the budget of %d per worker; those closest to the valid claims are evaluated", maxGroups))
 	}
 	var evaluated, executed, differing float64
-	n := len(e.w.Vals)
+	n := len(e.voters)
 	for gi, g := range groups {
 		if gi >= maxGroups {
 			break
